@@ -339,9 +339,6 @@ func (ex *Exec) callContract(fr *Frame, c *Contract, callee *ssa.Function, args,
 	ms := ex.resolveModifies(env, c)
 	ex.havocLog = nil
 	pcBefore := len(st.PC)
-	// allocation ghosts may be changed by any call (constrained only by explicit ensures)
-	ms.Ghost["maxalloc"] = true
-	ms.Ghost["nalloc"] = true
 	ex.applyHavoc(st, ms)
 	ex.bumpAlloc(st)
 	ex.resolveMemNew(env, ms)
